@@ -76,13 +76,15 @@ def contend3(level="quick"):
 def buffer_scope(level="quick"):
     wf_short = dag("single", [1])
     wf_long = dag("chain3", [2, 3, 2], [0, 0])
-    hots = [(4, 3), (6, 3), (7, 3), (10, 3), (10, 1)]
+    hots = [(4, 3), (5, 3), (6, 3), (7, 3), (10, 3), (10, 1)]
     colds = [(6, 2), (10, 3), (3, 1)]
     if level == "thorough":
         hots += [(5, 2), (8, 2), (12, 4)]
         colds += [(4, 4), (100, 10)]
     sizes = [((1, 2), (1, 2)), ((2, 2), (1, 2)), ((1, 3), (2, 1)),
-             ((2, 1), (3, 1)), ((3, 1), (2, 2))]   # (dur, rate) per obs
+             ((2, 1), (3, 1)), ((3, 1), (2, 2)),   # (dur, rate) per obs
+             # both still ingesting when their sum exceeds the capacity
+             ((3, 1), (3, 1)), ((2, 1), (2, 2))]
     starts = (0, 1, 2, 3, 5) if level != "thorough" else (0, 1, 2, 3, 4, 5, 8)
     for M in (1, 2):
         machines = CLUSTERS[M][0]
@@ -214,4 +216,49 @@ def shipped(case, level="quick", static_mode="diag", greedy=True):
                 out.append({"kind": "batch", "p": p, "min": mn})
     kinds = ("dynamic", "greedy") if greedy else ("dynamic",)
     out += static_algs(case, kinds, static_mode)
+    return out
+
+
+# -- S-wide: last wave as wide as the cluster/reservation, every task with a
+#    predecessor on another machine, fractional transfer times (vol/bw = .5)
+
+def wide_scope(level="quick"):
+    dags = [("bfly", dag("bfly", [1, 1, 1, 1], [1, 1, 1, 1])),
+            ("bfly-v3", dag("bfly", [1, 1, 1, 1], 3)),
+            ("bfly-c23", dag("bfly", [2, 2, 3, 3], [1, 3, 3, 1])),
+            ("bfly-mix", dag("bfly", [1, 2, 1, 1], [3, 1, 1, 3])),
+            ("fork", dag("fork", [1, 1, 1], [1, 1])),
+            ("fork-v3", dag("fork", [2, 1, 1], [3, 3])),
+            ("fork-v5", dag("fork", [1, 2, 2], [5, 3]))]
+    clusters = [[[1, 2], [1, 2]], [[2, 2], [1, 2]]]
+    if level == "thorough":
+        dags += [("bfly3", dag("bfly3", [1, 1, 1, 1, 1], 1)),
+                 ("bfly3-v3", dag("bfly3", [1, 1, 2, 2, 2], 3)),
+                 ("wjoin", dag("wjoin", [1, 2, 1, 1], [1, 3, 5]))]
+        for cr in (1, 2, 3):
+            for cl in (1, 2, 3):
+                for vs in itertools.product((1, 3), repeat=4):
+                    dags.append(("bfly-full", dag("bfly", [cr, cr, cl, cl],
+                                                  list(vs))))
+        clusters += [[[1, 2], [1, 2], [1, 2]], [[1, 4], [2, 4]]]
+    wb = dag("chain2", [1, 1], [1])
+    for machines in clusters:
+        for label, wa in dags:
+            for second in (None, 1, 3):
+                obs = [mkobs("a", 0, 1, 1, 1, 1, "wa")]
+                wfs = {"wa": wa}
+                if second is not None:
+                    obs.append(mkobs("b", second, 1, 1, 1, 1, "wb"))
+                    wfs["wb"] = wb
+                cfg = mkcfg(machines, obs, (100, 10), (100, 10), 2, 2)
+                yield "S-wide", mkcase(cfg, wfs)
+
+
+def wide_algs(case, level="quick"):
+    M = len(case["cfg"]["machines"])
+    out = [{"kind": "queue"}]
+    for p in (1, 2):
+        for mn in (1, 2):
+            if M // p >= mn:
+                out.append({"kind": "batch", "p": p, "min": mn})
     return out
